@@ -217,9 +217,40 @@ class C26(Property):
         with abtem.config.set({"precision": case.get("precision", "float32")}):
             self._oracle(ctx, case)
 
+    def _ensemble_oracle(self, ctx: Ctx, case):
+        """a BlochwaveEnsemble over orientations: every member equals the individual BlochWaves run, lazy = eager"""
+        base = dict(case, rot=[0.0, 0.0])
+        ts = case["thicknesses"]
+        try:
+            ens = bloch(base).rotate("x", np.array(case["rx"]), "y", np.array(case["ry"]))
+            dp = ens.calculate_diffraction_patterns(ts, lazy=False)
+            E = np.asarray(dp.array, dtype=float)
+            hkl = [tuple(int(x) for x in h) for h in dp.miller_indices]
+        except Exception as e:  # noqa
+            ctx.violation("bloch-ensemble-call-raises", case, {"error": f"{type(e).__name__}: {e}"})
+            return
+        try:
+            L = np.asarray(ens.calculate_diffraction_patterns(ts, lazy=True).compute().array, dtype=float)
+            if L.shape != E.shape or np.abs(L - E).max() > 1e-5:
+                ctx.violation("ensemble-lazy-differs-from-eager", case, {"max diff": float(np.abs(L - E).max()) if L.shape == E.shape else "shape"})
+        except Exception as e:  # noqa
+            ctx.violation("bloch-ensemble-lazy-call-raises", case, {"error": f"{type(e).__name__}: {e}"})
+        worst = 0.0
+        for i, rx in enumerate(case["rx"]):
+            for j, ry in enumerate(case["ry"]):
+                b1 = bloch(base).rotate("x", float(rx), "y", float(ry))
+                I = np.asarray(b1.calculate_diffraction_patterns(ts, lazy=False).array, dtype=float)
+                d = {tuple(int(x) for x in h): I[:, k] for k, h in enumerate(b1.hkl)}
+                for k, h in enumerate(hkl):
+                    worst = max(worst, float(np.abs(E[i, j, :, k] - d.get(h, np.zeros(len(ts)))).max()))
+        if worst > 1e-5:
+            ctx.violation("ensemble-member-differs-from-individual-run", case, {"max diff": worst})
+
     def _oracle(self, ctx: Ctx, case):
         from abtem.bloch.dynamical import calculate_M_matrix
 
+        if case.get("check") == "ensemble":
+            return self._ensemble_oracle(ctx, case)
         try:
             bw = bloch(case)
             hkl = bw.hkl
@@ -294,6 +325,15 @@ class C26(Property):
         for _ in range(ctx.n(14, 150)):
             case = self.gen(ctx)
             self.oracle(ctx, case)
+            ctx.case(case)
+        rng = ctx.rng
+        for _ in range(ctx.n(2, 20)):
+            case = dict(check="ensemble", crystal=rng.choice(["Si", "Cu", "SrTiO3"]), g_max=1.0, sigma=0.08, energy=rng.choice([100e3, 200e3]),
+                        sg_max=rng.choice([0.05, 0.1]), precision="float32", thicknesses=[0.0, rng.choice([40.0, 120.0])],
+                        rx=[0.0] + [round(rng.uniform(-0.03, 0.03), 4) for _ in range(rng.randint(1, 2))],
+                        ry=[round(rng.uniform(-0.03, 0.03), 4) for _ in range(rng.randint(1, 2))])
+            self.oracle(ctx, case)
+            ctx.count("ensemble")
             ctx.case(case)
 
     def replay(self, ctx: Ctx, case):
